@@ -213,6 +213,32 @@ def run_sim(expr, rng, context: Optional[dict] = None, p_finish: float = 0.5, co
     return outcome_of(out)
 
 
+def run_sim_seq(runs: list, rng, config_ctx=None, p_finish: float = 0.5) -> list:
+    """Several executions, one after the other, on ONE Scheduler object and backend: runs = [(expr, run context or
+    None)].  The context given to one run() must not leak into the next."""
+    import os
+
+    from . import simloop
+
+    dbp = simloop.clone_db(_scratch(), f"evs_{os.getpid()}_{rng.random()}.db")
+    b = simloop.open_backend(dbp)
+    outs = []
+    try:
+        s, d = simloop.make_scheduler(b, limits={}, chooser=simloop.RandomChooser(rng, p_finish),
+                                      executors=("default", "process"), context=config_ctx)
+        for expr, context in runs:
+            d.events, d.submitted, d.nsteps, d.njobs, d.last_choice = [], [], 0, 0, None
+            kw = {"context": context} if context is not None else {}
+            outs.append(outcome_of(simloop.run_controlled(s, d, expr, **kw)))
+    finally:
+        simloop.close_backend(b)
+        try:
+            os.unlink(dbp)
+        except OSError:
+            pass
+    return outs
+
+
 def _scratch():
     global _sim_scratch
     if _sim_scratch is None:
